@@ -10,7 +10,7 @@ import token as tokenlib
 from decimal import Decimal
 from fractions import Fraction
 
-from . import regs
+from . import regs, core
 from .core import Property, capture, frac_s, canon, err_name, BUILD
 
 # Python precedence levels for rendering
@@ -314,7 +314,7 @@ class Check(Property):
         s = c["s"]
         if not getattr(self, "_reparse_done", False):
             self._reparse_done = True
-            rv = self.reparse_probe()
+            rv = self.reparse_probe() + self.optimized_mode_probe()
             if rv:
                 return rv
         if c["kind"] == "malformed":
@@ -391,6 +391,28 @@ class Check(Property):
                 want = (int,) if (isint and tname == "float") else ((int, T) if isint else (T,))
                 if type(r) not in want and type(getattr(r, "magnitude", None)) not in want:
                     v.append(f"C07 literal {s!r} in a {tname} registry has type {type(r).__name__}")
+        return v
+
+    def optimized_mode_probe(self):
+        """unbalanced parentheses or a dangling operator never yield a value - also when Python runs with -O (assert statements
+        are stripped there, so a guard written as an assert is no guard)"""
+        import json
+        import subprocess
+        dangling = ["3 -", "2 a +", "2 *", "* 2", "2 a /", "(", ")", "((2)", "(2))", "2 **", "- ", "+", "()", "2 ()", "a b -", "(a +) b", "2 ** -"]
+        code = ("import sys, json; sys.path.insert(0, %r); import pint; u = pint.UnitRegistry(non_int_type=__import__('fractions').Fraction); out = {}\n"
+                "for s in json.loads(sys.argv[1]):\n"
+                "    try:\n        out[s] = 'value ' + repr(u.parse_expression(s, a=u.Quantity(7, 'm'), b=u.Quantity(3, 's')))\n"
+                "    except BaseException as exc:\n        out[s] = 'error ' + type(exc).__name__\n"
+                "print(json.dumps(out))") % core.REPO
+        v = []
+        try:
+            r = subprocess.run([sys.executable, "-O", "-c", code, json.dumps(dangling)], capture_output=True, text=True, timeout=300)
+            out = json.loads(r.stdout.strip().splitlines()[-1])
+        except Exception as exc:  # noqa: BLE001
+            return [f"C07 optimized-mode probe could not run: {type(exc).__name__}: {exc}"]
+        for s_, res in out.items():
+            if res.startswith("value"):
+                v.append(f"C07 under `python -O` the malformed expression {s_!r} yields a {res}")
         return v
 
     def reparse_probe(self):
